@@ -328,6 +328,10 @@ func (c *Client) httpPoll(ctx context.Context, url string) {
 			c.lcache.error(fmt.Errorf("rpc=%s %w", tag, hresp.Error))
 			return
 		}
+		if hresp.Header == nil {
+			c.lcache.error(fmt.Errorf("rpc=eth_getBlockByNumber/latest missing result"))
+			return
+		}
 		slog.DebugContext(ctx, "http poll",
 			"n", hresp.Number,
 			"h", fmt.Sprintf("%.4x", hresp.Hash),
@@ -374,6 +378,9 @@ func (c *Client) Latest(ctx context.Context, url string, n uint64) (uint64, []by
 		const tag = "eth_getBlockByNumber/latest"
 		return 0, nil, fmt.Errorf("rpc=%s %w", tag, hresp.Error)
 	}
+	if hresp.Header == nil {
+		return 0, nil, fmt.Errorf("rpc=eth_getBlockByNumber/latest missing result")
+	}
 	slog.DebugContext(ctx, "http-get-latest",
 		"n", hresp.Number,
 		"h", fmt.Sprintf("%.4x", hresp.Hash),
@@ -396,6 +403,9 @@ func (c *Client) Hash(ctx context.Context, url string, n uint64) ([]byte, error)
 	if hresp.Error.Exists() {
 		const tag = "eth_getBlockByNumber/hash"
 		return nil, fmt.Errorf("rpc=%s %w", tag, hresp.Error)
+	}
+	if hresp.Header == nil {
+		return nil, fmt.Errorf("rpc=eth_getBlockByNumber/hash missing result for block %d", n)
 	}
 	return hresp.Hash, nil
 }
